@@ -177,137 +177,141 @@ func c18(x *mon.Ctx) {
 		return ref.Policy{ReportData: append([]byte{}, sq.ReportData...), MrTd: append([]byte{}, sq.MrTd...),
 			Rtmrs: [][]byte{sq.Rtmrs[0], sq.Rtmrs[1], sq.Rtmrs[2], sq.Rtmrs[3]}, MinTeeTcbSvn: make([]byte, 16)}
 	}
-	base := mk(r)
 	var cases []*ecase
-	add := func(w *world.World, lvl int, class, param string, pol ref.Policy, mustFail, mustPass bool) {
-		c := w.Case(lvl, class, param)
-		e := &ecase{V: c, Policy: pol, MustFail: mustFail, MustPass: mustPass}
-		if w.Root() == base.Root() {
-			e.Twin = base.Case(lvl, "twin", "")
+	var base *world.World
+	for wi := 0; wi < x.Pick(1, 8); wi++ {
+		base = mk(r)
+		wtag := fmt.Sprintf("pki%d/", wi)
+		add := func(w *world.World, lvl int, class, param string, pol ref.Policy, mustFail, mustPass bool) {
+			c := w.Case(lvl, class, wtag+param)
+			e := &ecase{V: c, Policy: pol, MustFail: mustFail, MustPass: mustPass}
+			if w.Root() == base.Root() {
+				e.Twin = base.Case(lvl, "twin", "")
+			}
+			cases = append(cases, e)
 		}
-		cases = append(cases, e)
-	}
-	for _, l := range levels {
-		add(base, l, "twin", fmt.Sprint("level", l), goodPolicy(), false, true)
-		add(base, l, "twin-empty-policy", fmt.Sprint("level", l), ref.Policy{}, false, true)
-	}
-	// ---- verification gate
-	for _, f := range faults01() {
-		if f.expect != "reject" {
-			continue
+		for _, l := range levels {
+			add(base, l, "twin", fmt.Sprint("level", l), goodPolicy(), false, true)
+			add(base, l, "twin-empty-policy", fmt.Sprint("level", l), ref.Policy{}, false, true)
 		}
-		w := base.Clone()
-		f.apply(w, r)
-		add(w, world.LBase, "verify-fault", "c01/"+f.name, goodPolicy(), true, false)
-	}
-	other := mk(r)
-	for _, f := range faults02() {
-		if f.expect != "reject" {
-			continue
-		}
-		w := base.Clone()
-		f.apply(w, other, r)
-		add(w, world.LBase, "verify-fault", "c02/"+f.name, goodPolicy(), true, false)
-	}
-	for _, sr := range signedRejects03() {
-		if sr.name == "tcb-module-identities-omitted" && base.P.TeeTcb[1] == 0 {
-			continue
-		}
-		w := base.Clone()
-		sr.apply(w)
-		w.Resign()
-		add(w, world.LColl, "verify-fault", "c03/"+sr.name, goodPolicy(), true, false)
-	}
-	// ---- policy gate
-	for _, name := range exactNames {
-		for _, kind := range []string{"first-differs", "last-differs", "one-short"} {
-			p := goodPolicy()
-			setExact(&p, name, variant(r, kind, quoteField(sq, name)))
-			add(base, world.LBase, "policy-mismatch", name+"/"+kind, p, true, false)
-		}
-	}
-	for i := 0; i < 4; i++ {
-		p := goodPolicy()
-		p.Rtmrs = [][]byte{sq.Rtmrs[0], sq.Rtmrs[1], sq.Rtmrs[2], sq.Rtmrs[3]}
-		p.Rtmrs[i] = variant(r, "random-differs", sq.Rtmrs[i])
-		add(base, world.LBase, "policy-mismatch", fmt.Sprint("rtmr", i), p, true, false)
-	}
-	{
-		p := goodPolicy()
-		p.MinQeSvn = 65535
-		add(base, world.LBase, "policy-mismatch", "min-qe-svn", p, true, false)
-		p = goodPolicy()
-		p.MinPceSvn = 65535
-		add(base, world.LBase, "policy-mismatch", "min-pce-svn", p, true, false)
-		p = goodPolicy()
-		p.MinTeeTcbSvn = bytes.Repeat([]byte{255}, 16)
-		add(base, world.LBase, "policy-mismatch", "min-tee-tcb-svn", p, true, false)
-		p = goodPolicy()
-		p.AnyMrTd = [][]byte{variant(r, "random-differs", sq.MrTd)}
-		add(base, world.LBase, "policy-mismatch", "any-mr-td", p, true, false)
-	}
-	// verification faults that only differ from the twin in the OPTIONS (same quote, same chain): time past the chain's expiry, another pool
-	{
-		w := base.Clone()
-		w.Times[world.TPckCertChain] = world.Far.NotAfter.Add(world.Day)
-		add(w, world.LBase, "verify-fault", "options/time-past-chain-expiry", goodPolicy(), true, false)
-		w = base.Clone()
-		w.Roots = certs(other.PKI.Root)
-		add(w, world.LBase, "verify-fault", "options/pool-replaced", goodPolicy(), true, false)
-		w = base.Clone()
-		w.Roots = []*x509Cert{}
-		add(w, world.LBase, "verify-fault", "options/pool-emptied", goodPolicy(), true, false)
-	}
-	// both gates failing
-	{
-		w := base.Clone()
-		w.Q.SignQE(world.NewKey())
-		p := goodPolicy()
-		p.MrTd = variant(r, "first-differs", sq.MrTd)
-		add(w, world.LBase, "verify-fault", "both-gates", p, true, false)
-	}
-	// ---- RTMR bit flips, re-signed
-	step := 1
-	if x.Quick() {
-		step = 4
-	}
-	for i := 0; i < 4; i++ {
-		for b := (i * 3) % step; b < 384; b += step {
-			w := base.Clone()
-			w.Q.Body[328+48*i+b/8] ^= 1 << uint(b%8)
-			w.Requote()
-			add(w, world.LBase, fmt.Sprintf("rtmr%d-bitflip", i), fmt.Sprint("bit", b), ref.Policy{}, measured[i], false)
-		}
-	}
-	// special register values on a correctly re-signed quote: all-zero ("never extended"), all-ones, another register's value
-	for i := 0; i < 4; i++ {
-		for name, val := range map[string][]byte{"all-zero": make([]byte, 48), "all-ones": bytes.Repeat([]byte{0xff}, 48), "next-registers-value": sq.Rtmrs[(i+1)%4]} {
-			if bytes.Equal(val, sq.Rtmrs[i]) {
+		// ---- verification gate
+		for _, f := range faults01() {
+			if f.expect != "reject" {
 				continue
 			}
 			w := base.Clone()
-			copy(w.Q.Body[328+48*i:], val)
-			w.Requote()
-			add(w, world.LBase, fmt.Sprintf("rtmr%d-special-value", i), name, ref.Policy{}, measured[i], false)
+			f.apply(w, r)
+			add(w, world.LBase, "verify-fault", "c01/"+f.name, goodPolicy(), true, false)
 		}
-	}
-	// policy with unconstrained (empty) RTMR entries BEFORE the mismatching one
-	for i := 1; i < 4; i++ {
-		p := ref.Policy{Rtmrs: [][]byte{{}, {}, {}, {}}}
-		p.Rtmrs[i] = variant(r, "random-differs", sq.Rtmrs[i])
-		add(base, world.LBase, "policy-mismatch", fmt.Sprintf("rtmr%d-after-empty-entries", i), p, true, false)
-		p2 := ref.Policy{Rtmrs: [][]byte{nil, nil, nil, nil}}
-		p2.Rtmrs[i] = variant(r, "last-differs", sq.Rtmrs[i])
-		add(base, world.LBase, "policy-mismatch", fmt.Sprintf("rtmr%d-after-nil-entries", i), p2, true, false)
-	}
-	// a quote with RTMR contents swapped between registers
-	{
-		w := base.Clone()
-		a, b := append([]byte{}, w.Q.Body[328:376]...), append([]byte{}, w.Q.Body[376:424]...)
-		copy(w.Q.Body[328:], b)
-		copy(w.Q.Body[376:], a)
-		w.Requote()
-		add(w, world.LBase, "rtmr-swapped", "0<->1", ref.Policy{}, measured[0] || measured[1], false)
+		other := mk(r)
+		for _, f := range faults02() {
+			if f.expect != "reject" {
+				continue
+			}
+			w := base.Clone()
+			f.apply(w, other, r)
+			add(w, world.LBase, "verify-fault", "c02/"+f.name, goodPolicy(), true, false)
+		}
+		for _, sr := range signedRejects03() {
+			if sr.name == "tcb-module-identities-omitted" && base.P.TeeTcb[1] == 0 {
+				continue
+			}
+			w := base.Clone()
+			sr.apply(w)
+			w.Resign()
+			add(w, world.LColl, "verify-fault", "c03/"+sr.name, goodPolicy(), true, false)
+		}
+		// ---- policy gate
+		for _, name := range exactNames {
+			for _, kind := range []string{"first-differs", "last-differs", "one-short"} {
+				p := goodPolicy()
+				setExact(&p, name, variant(r, kind, quoteField(sq, name)))
+				add(base, world.LBase, "policy-mismatch", name+"/"+kind, p, true, false)
+			}
+		}
+		for i := 0; i < 4; i++ {
+			p := goodPolicy()
+			p.Rtmrs = [][]byte{sq.Rtmrs[0], sq.Rtmrs[1], sq.Rtmrs[2], sq.Rtmrs[3]}
+			p.Rtmrs[i] = variant(r, "random-differs", sq.Rtmrs[i])
+			add(base, world.LBase, "policy-mismatch", fmt.Sprint("rtmr", i), p, true, false)
+		}
+		{
+			p := goodPolicy()
+			p.MinQeSvn = 65535
+			add(base, world.LBase, "policy-mismatch", "min-qe-svn", p, true, false)
+			p = goodPolicy()
+			p.MinPceSvn = 65535
+			add(base, world.LBase, "policy-mismatch", "min-pce-svn", p, true, false)
+			p = goodPolicy()
+			p.MinTeeTcbSvn = bytes.Repeat([]byte{255}, 16)
+			add(base, world.LBase, "policy-mismatch", "min-tee-tcb-svn", p, true, false)
+			p = goodPolicy()
+			p.AnyMrTd = [][]byte{variant(r, "random-differs", sq.MrTd)}
+			add(base, world.LBase, "policy-mismatch", "any-mr-td", p, true, false)
+		}
+		// verification faults that only differ from the twin in the OPTIONS (same quote, same chain): time past the chain's expiry, another pool
+		{
+			w := base.Clone()
+			w.Times[world.TPckCertChain] = world.Far.NotAfter.Add(world.Day)
+			add(w, world.LBase, "verify-fault", "options/time-past-chain-expiry", goodPolicy(), true, false)
+			w = base.Clone()
+			w.Roots = certs(other.PKI.Root)
+			add(w, world.LBase, "verify-fault", "options/pool-replaced", goodPolicy(), true, false)
+			w = base.Clone()
+			w.Roots = []*x509Cert{}
+			add(w, world.LBase, "verify-fault", "options/pool-emptied", goodPolicy(), true, false)
+		}
+		// both gates failing
+		{
+			w := base.Clone()
+			w.Q.SignQE(world.NewKey())
+			p := goodPolicy()
+			p.MrTd = variant(r, "first-differs", sq.MrTd)
+			add(w, world.LBase, "verify-fault", "both-gates", p, true, false)
+		}
+		// ---- RTMR bit flips, re-signed
+		step := 1
+		if x.Quick() {
+			step = 4
+		}
+		for i := 0; i < 4; i++ {
+			for b := (i * 3) % step; b < 384; b += step {
+				w := base.Clone()
+				w.Q.Body[328+48*i+b/8] ^= 1 << uint(b%8)
+				w.Requote()
+				add(w, world.LBase, fmt.Sprintf("rtmr%d-bitflip", i), fmt.Sprint("bit", b), ref.Policy{}, measured[i], false)
+			}
+		}
+		// special register values on a correctly re-signed quote: all-zero ("never extended"), all-ones, another register's value
+		for i := 0; i < 4; i++ {
+			for name, val := range map[string][]byte{"all-zero": make([]byte, 48), "all-ones": bytes.Repeat([]byte{0xff}, 48), "next-registers-value": sq.Rtmrs[(i+1)%4]} {
+				if bytes.Equal(val, sq.Rtmrs[i]) {
+					continue
+				}
+				w := base.Clone()
+				copy(w.Q.Body[328+48*i:], val)
+				w.Requote()
+				add(w, world.LBase, fmt.Sprintf("rtmr%d-special-value", i), name, ref.Policy{}, measured[i], false)
+			}
+		}
+		// policy with unconstrained (empty) RTMR entries BEFORE the mismatching one
+		for i := 1; i < 4; i++ {
+			p := ref.Policy{Rtmrs: [][]byte{{}, {}, {}, {}}}
+			p.Rtmrs[i] = variant(r, "random-differs", sq.Rtmrs[i])
+			add(base, world.LBase, "policy-mismatch", fmt.Sprintf("rtmr%d-after-empty-entries", i), p, true, false)
+			p2 := ref.Policy{Rtmrs: [][]byte{nil, nil, nil, nil}}
+			p2.Rtmrs[i] = variant(r, "last-differs", sq.Rtmrs[i])
+			add(base, world.LBase, "policy-mismatch", fmt.Sprintf("rtmr%d-after-nil-entries", i), p2, true, false)
+		}
+		// a quote with RTMR contents swapped between registers
+		{
+			w := base.Clone()
+			a, b := append([]byte{}, w.Q.Body[328:376]...), append([]byte{}, w.Q.Body[376:424]...)
+			copy(w.Q.Body[328:], b)
+			copy(w.Q.Body[376:], a)
+			w.Requote()
+			add(w, world.LBase, "rtmr-swapped", "0<->1", ref.Policy{}, measured[0] || measured[1], false)
+		}
 	}
 	x.Each(len(cases), func(i int) {
 		c := cases[i]
@@ -317,7 +321,7 @@ func c18(x *mon.Ctx) {
 			x.Violation(c.V.Class, c.V.Param, p, "ccel", c)
 		}
 		x.Note(c.V.Class, c.V.Param, got, false, p == "")
-		if c.V.Class == "twin" || c.V.Class == "rtmr0-bitflip" && c.V.Param == "bit0" || c.V.Class == "policy-mismatch" && c.V.Param == "mr_td/last-differs" {
+		if c.V.Class == "twin" || c.V.Class == "rtmr0-bitflip" && strings.HasSuffix(c.V.Param, "/bit0") || c.V.Class == "policy-mismatch" && strings.HasSuffix(c.V.Param, "mr_td/last-differs") {
 			x.Sample(map[string]any{"class": c.V.Class, "param": c.V.Param, "state_returned": got, "must_fail": c.MustFail})
 		}
 	})
